@@ -114,7 +114,7 @@ open AdaVerif.Model.ParseSpecial AdaVerif.Lemmas.PB in
 /-- the limit changes nothing but refusals: within it, the limited parser answers what the Standard's parser answers
     (C01's theorem, same side conditions), and it refuses exactly when the input or the normalized href is too long -/
 theorem parser_limit_transparent (idna : Spec.Idna) (L : Nat) (input : Bytes) (hid : ∀ d, HP.IdnaAt idna d)
-    (hclean : HS.bracketClean (schemeSpecial input) false (hostStart input) = true) :
+    (hclean : AdaVerif.Lemmas.BR.bracketOk (schemeSpecial input) (hostStart input) = true) :
     parseNoBaseL idna L input = outOfL L input (Spec.parse idna input none) := by
   unfold parseNoBaseL
   rw [PS.parseNoBase_spec idna input hid hclean, limited_outOf]
